@@ -4,6 +4,7 @@ import (
 	"errors"
 	"fmt"
 	"io"
+	"os"
 	"runtime"
 	"strconv"
 	"strings"
@@ -21,6 +22,11 @@ import (
 //     the consumer keeps every delivered value until the stream has ended, the reader's bytes are overwritten, and
 //     only then are the values read: a value must not change after delivery (C16) and the sequence must be the
 //     stream's documents in order (C09).
+//
+// holdall is only used with reads of at least 1 MiB: ParseNDStream cuts a chunk per Read (plus the rest of the line) and
+// every delivered value keeps its 10 MiB chunk buffer as Message until the consumer hands it back through `reuse`, so a
+// consumer that holds everything needs 10 MiB per Read — with 4 KiB reads of an 80 MiB stream that is 200 GB (the first
+// version of the thorough tier did that and was killed by the kernel; DESIGN §12).
 //
 // The op line is self-describing (`bigstream <seed> <kind> <chunks> <procs> <readsize>`), so a replay regenerates it.
 
@@ -181,6 +187,11 @@ func (c *countingReader) Read(p []byte) (int, error) {
 
 func bigStreamCase(rn *runner, cr *rng, kind string, chunks, procs, readSize int, note string) {
 	op := bigStreamOp(cr.u64(), kind, chunks, procs, readSize)
+	if os.Getenv("SJH_TRACE") != "" {
+		var ms runtime.MemStats
+		runtime.ReadMemStats(&ms)
+		fmt.Fprintf(os.Stderr, "trace: %s (heap in use %d MiB, sys %d MiB)\n", op, ms.HeapInuse>>20, ms.Sys>>20)
+	}
 	out := runBigStream(op)
 	rn.rep.Evaluations++
 	cls := fmt.Sprintf("bigstream/%s/chunks=%d/procs=%d/read=%d", kind, chunks, procs, readSize)
